@@ -1034,9 +1034,19 @@ func c20Random(s *c20Seq, n int) {
 	for i := 0; i < n && w.desync == "" && !w.exited; i++ {
 		in, ext := w.enabled()
 		var choices []string
-		choices = append(choices, in...)
-		choices = append(choices, in...)
-		choices = append(choices, in...)
+		for _, x := range in {
+			// retirements complete late: keep the "old generation still retiring" stage long
+			if x == "closemgr" || x == "closeg" {
+				if w.r.Intn(3) == 0 {
+					choices = append(choices, x)
+				}
+				continue
+			}
+			choices = append(choices, x, x, x)
+		}
+		if len(choices) == 0 {
+			choices = append(choices, in...)
+		}
 		for _, e := range ext {
 			switch e {
 			case "term":
@@ -1096,7 +1106,7 @@ func TestVerifC20(t *testing.T) {
 	out := VOpenStream("c20")
 	r := NewVRand(VSeed())
 	total := 0
-	budget := VEnvInt("VERIF_C20_OPS", 60000)
+	budget := VEnvInt("VERIF_C20_OPS", 45000)
 	if VThorough() {
 		budget = VEnvInt("VERIF_C20_OPS", 900000)
 	}
